@@ -129,7 +129,7 @@ CHECKS['C12'] = dict(
     text='Bounded model checking of the real KillableThread/kill/join_or_die logic: the thread body, the kill request and the joiner are coroutines generated from the live source (sequentialisation) on cooperative primitives with virtual time; '
          'the step at which kill is delivered, the body shape (finishing, raising, swallowing the termination, blocked) and the join timeout are symbolic and CrossHair/z3 exhausts the paths: kill of a not-started or finished thread is a no-op, a delivered kill ends the thread through ThreadTerminationError exactly once, '
          '_thread_exc/_thread_finished run, join_or_die returns or raises by its deadline.',
-    note='Trusted: CrossHair+z3, the sequentialising transformer and cooperative primitives (vlib/seqz), asynchronous exception delivery modelled as a pending exception raised at the next statement boundary of the target. Outside: CPython C-level delivery (PyThreadState_SetAsyncExc latency), real time.',
+    note='Trusted: CrossHair+z3, the sequentialising transformer and cooperative primitives (vlib/seqz), asynchronous exception delivery modelled as a pending exception raised at the next statement boundary of the target. Outside: CPython C-level delivery (PyThreadState_SetAsyncExc latency), real time. Schedule variables are pinned by bisection and the pinned schedule runs natively on the sequentialised code (the solver partitions and exhausts the schedule domain; it does not reason symbolically about the code inside a path). Counterexamples replay in the sequentialised model, not on real threads; the genuine findings were additionally reproduced on real threads by scripts under findings/.',
     technique='sequentialisation of real threading code + symbolic schedule (CrossHair/z3)',
     design='8/C12')
 CHECKS['C04'] = dict(
@@ -137,14 +137,14 @@ CHECKS['C04'] = dict(
     text='Bounded model checking of the real abort path: TestExecutor._execute_abortable_sequence/_execute_node/abort/..., PhaseExecutor.execute_phase/_execute_phase_once/abort/reset_stop and PhaseExecutorThread are sequentialised from the live source; '
          'test programs (setup/main/teardown groups) run as coroutines on cooperative primitives while one or two abort() calls arrive at symbolic steps under a symbolic preemption; after every schedule: the outcome is ABORTED iff an abort arrived before the end, '
          'no main-phase body starts after abort() returned, teardown of every entered group runs exactly once, a second abort skips at most the current teardown phase, and the executor always terminates.',
-    note='Trusted: CrossHair+z3, vlib/seqz transformer and primitives, phase bodies as scripted coroutines with virtual durations. One class of schedule violates the statement on the pinned tree and is listed as known finding D13 (abort lost between the executor check and the phase start). Outside: >2 aborts, plugs tearDown under abort, real signal delivery.',
+    note='Trusted: CrossHair+z3, vlib/seqz transformer and primitives, phase bodies as scripted coroutines with virtual durations. One class of schedule violates the statement on the pinned tree and is listed as known finding D13 (abort lost between the executor check and the phase start). Outside: >2 aborts, plugs tearDown under abort, real signal delivery. Schedule variables are pinned by bisection and the pinned schedule runs natively on the sequentialised code (the solver partitions and exhausts the schedule domain; it does not reason symbolically about the code inside a path). Counterexamples replay in the sequentialised model, not on real threads; the genuine findings were additionally reproduced on real threads by scripts under findings/.',
     technique='sequentialisation of the real executor abort path + symbolic schedule (CrossHair/z3)',
     design='8/C04')
 CHECKS['C14'] = dict(
     category='model_checking', engine='seqz',
     text='Bounded model checking of the real ADB stream multiplexer: AdbStreamTransport (_read_messages_until_true, _handle_message, enqueue_message, read, write, _send_command, close), AdbConnection (read_for_stream, _handle_message_for_stream, close_stream_transport) and AdbStream.read/write are sequentialised from the live source and run on cooperative Lock/RLock/Condition/Queue with virtual time; '
          'two streams with one reader each under every merge of the device packets, and a writer plus a reader on one stream with device bytes at every position (before/after the OKAY), under a symbolic preemption (two in the short scenario and in the thorough tier) with bounded time skips: per-stream exact in-order bytes, one OKAY per device WRTE with the right ids, CLSE answered once, chunks <= maxdata with one outstanding WRTE, no deadlock, no write waiting out its timeout after its OKAY arrived.',
-    note='Trusted: CrossHair+z3, vlib/seqz transformer and primitives, reactive message-level device (framing is C13, handshake C15). Found and fixed D14 (lost wake-up). Outside: 3 streams, longer scripts, >2 preemptions, the randomised part of the quantifier, real-thread timing.',
+    note='Trusted: CrossHair+z3, vlib/seqz transformer and primitives, reactive message-level device (framing is C13, handshake C15). Found and fixed D14 (lost wake-up). Outside: 3 streams, longer scripts, >2 preemptions, the randomised part of the quantifier, real-thread timing. Schedule variables are pinned by bisection and the pinned schedule runs natively on the sequentialised code (the solver partitions and exhausts the schedule domain; it does not reason symbolically about the code inside a path). Counterexamples replay in the sequentialised model, not on real threads; the genuine findings were additionally reproduced on real threads by scripts under findings/.',
     technique='sequentialisation of the real stream multiplexer + symbolic schedule (CrossHair/z3)',
     design='8/C14')
 NA_REASON = {}
